@@ -767,6 +767,37 @@ pub fn packaging_part() -> (u64, u64, Option<(String, String, Value)>) {
     (n, *c.get("two_hop_packagings_compared").unwrap_or(&0), None)
 }
 
+/// C14's share of the two-hop clause "trading is refused before the pool's trade-enable time": in the root states of the world
+/// whose third pool has not yet opened, every two-hop variant (v1 and v2, both modes, every route) is judged — a route through the
+/// closed pool must fail, whichever leg it is. Returns (variants judged, first failure).
+pub fn trade_enable_part() -> (u64, Option<(String, String, Value)>) {
+    let b = build_world("c17-te");
+    let vs: Vec<Variant> = variants(&b.w, false).into_iter().filter(|v| v.lim1 == Lim::None && v.lim2 == Lim::None).collect();
+    let mut c = Counts::new();
+    let mut n = 0u64;
+    for (rname, l) in &b.roots {
+        for v in &vs {
+            n += 1;
+            let mut sample = None;
+            if let Err(e) = check_variant(l, &b.w, v, &mut c, &mut sample) {
+                let case = json!({"kind": "twohop_trade_enable", "root": rname, "variant": serde_json::to_value(v).unwrap()});
+                return (n, Some((format!("twohop_trade_enable/{rname}/{}", serde_json::to_string(v).unwrap()), format!("[world with a pool that opens 40 s later, root {rname}] {e} | variant {}", serde_json::to_string(v).unwrap()), case)));
+            }
+        }
+    }
+    (n, None)
+}
+
+pub fn replay_trade_enable(case: &Value) -> Result<(), String> {
+    let b = build_world("c17-te");
+    let root = case["root"].as_str().ok_or("root")?;
+    let l = &b.roots.iter().find(|r| r.0 == root).ok_or("unknown root")?.1;
+    let v: Variant = serde_json::from_value(case["variant"].clone()).map_err(|e| e.to_string())?;
+    let mut c = Counts::new();
+    let mut sample = None;
+    check_variant(l, &b.w, &v, &mut c, &mut sample)
+}
+
 pub fn replay_packaging(case: &Value) -> Result<(), String> {
     let b = build_world("c17-spl");
     let root = case["root"].as_str().ok_or("root")?;
